@@ -843,7 +843,7 @@ pub fn c19(ctx: &Ctx) -> i32 {
     let cov = json!({
         "evaluations": r["executed"].as_u64().unwrap_or(0),
         "distinct_nontrivial": d.len(),
-        "rule": "cases = Python calls on StepEnv and StepEnvNumpy executed on the real extension with numpy: after each step of a random asymmetric book (different counts, volumes and levels on the two sides) all four array-returning methods are compared element by element with the documented layout (traded volume, bid price, ask price, bid volume, ask volume, then per level bid volume, bid count, ask volume, ask count; lengths 9 and 45) filled from the Rust core, the traded volume of a step recomputed from the trade log (trades stamped inside the step) rather than read from the environment's counter; a fifth of the steps submit nothing at all; arrays are also read on the freshly constructed environment and between submissions and the step; every array, dictionary series and history getter is judged against the documented quantities recomputed from get_orders()/get_trades() of the same Python object (so the verdict does not depend on the object following the Rust twin's shuffle) and, while the states coincide, also against the Rust twin; get_market_data must have exactly the 45 documented keys, each bound to the matching recorded series; history getters; both data-frame helpers are run against a stub pandas and every column must be named after (and hold) its field; the documented index tables are parsed from the live docstrings and must equal the checker's; distinct = distinct asymmetric (state, environment class) pairs; non-trivial = bid and ask totals and touch records differ",
+        "rule": "cases = Python calls on StepEnv and StepEnvNumpy executed on the real extension with numpy: after each step of a random asymmetric book (different counts, volumes and levels on the two sides) all four array-returning methods are compared element by element with the documented layout (traded volume, bid price, ask price, bid volume, ask volume, then per level bid volume, bid count, ask volume, ask count; lengths 9 and 45) filled from the Rust core, the traded volume of a step recomputed from the trade log (trades stamped inside the step) rather than read from the environment's counter; a fifth of the steps submit nothing at all; arrays are also read on the freshly constructed environment and between submissions and the step; every array, dictionary series and history getter is judged against the documented quantities recomputed from get_orders()/get_trades() of the same Python object (so the verdict does not depend on the object following the Rust twin's shuffle) and, while the states coincide, also against the Rust twin; get_market_data must have exactly the 45 documented keys, each bound to the matching recorded series; history getters; both data-frame helpers are run against a stub pandas and every column must be named after (and hold) its field; the documented index tables are parsed from the live docstrings, each row is mapped to the quantity it names (side, price/volume/count, touch/total/level) and the arrays are judged against that documented layout, so a reworded table still decides and a table that assigns another quantity to an index makes the unchanged code a violation; distinct = distinct asymmetric (state, environment class) pairs; non-trivial = bid and ask totals and touch records differ",
         "samples": [sample],
         "scripts": n_scripts,
         "states": st.states,
